@@ -269,7 +269,7 @@ def stepVals (m : M) (fr : Frame) (vs : List SVal) : Step :=
   | .discard => goto_ m .done
   | .pcallB l fn => vals { m with line := l, curFn := fn } (.bool true :: vs)
   | .xpcallB _ l fn => vals { m with line := l, curFn := fn } (.bool true :: vs)
-  | .xpcallH => vals m [.bool false, v]      -- the message handler is called for ONE result (ldo.c luaD_throw → errfunc)
+  | .xpcallH .. => vals m [.bool false, v]      -- the message handler is called for ONE result (ldo.c luaD_throw → errfunc)
   | .coB => switchToParent m .dead [] (fun wrap => if wrap then .vals vs else .vals (.bool true :: vs))
   | .resumeB .. => unspec "internal: value delivered to a resume frame"
   | .ret1 => val1 m v
@@ -320,7 +320,15 @@ def stepErr (m : M) (v : SVal) (fl : Bool) : Step :=
   | .pcallB l fn :: k => .inl { m with kont := k, line := l, curFn := fn, ctrl := .vals [.bool false, v] }
   | .xpcallB h l fn :: k =>
     -- the handler runs with the error value; its results become the results of xpcall
-    .inl { m with kont := .xpcallH :: k, line := l, curFn := fn, ctrl := .call h [v] }
+    .inl { m with kont := .xpcallH l fn :: k, line := l, curFn := fn, ctrl := .call h [v] }
+  | .xpcallH l fn :: k =>
+    -- the message handler itself failed: xpcall still returns false (status LUA_ERRERR); WHICH value comes with
+    -- it is not fixed by the manual (the reference implementation re-enters the handler until the C stack is
+    -- exhausted and delivers "error in error handling"; gopher-lua delivers the handler's own error value):
+    -- a string is matched as "some string", anything else leaves the specified fragment
+    (match v with
+     | .str _ => .inl { m with kont := k, line := l, curFn := fn, ctrl := .vals [.bool false, sv "?"] }
+     | _ => unspec "non-string error raised inside an xpcall message handler")
   | .coB :: _ => switchToParent m .dead [] (fun wrap => if wrap then .err v fl else .vals [.bool false, v])
   | _ :: k => .inl { m with kont := k }
 
